@@ -127,7 +127,7 @@ pub open spec fn record_ok(r: &Record) -> bool {
 }
 // `h` is record `r` scored against the query: the record's own id / rating / title, and a match list for that title
 pub open spec fn scored(h: Hit, r: &Record, query: &TextRef) -> bool {
-    tm_some(&h.title, query, (h.rmatches, h.qmatches)) && tm_first(&h.title, query, (h.rmatches, h.qmatches)) && tm_fin(query, (h.rmatches, h.qmatches))
+    tm_some(&h.title, query, (h.rmatches, h.qmatches)) && tm_first(&h.title, query, (h.rmatches, h.qmatches)) && tm_fin(query, (h.rmatches, h.qmatches)) && tm_c14(&h.title, query, (h.rmatches, h.qmatches))
     && (query.words@.len() == 0 ==> h.rmatches@.len() == 0) && slots_ok(h) && h.id == r.id && h.rating == r.rating
     && h.title.words@ == r.title.words@ && h.title.source@ == r.title.source@ && h.title.chars@ == r.title.chars@ && h.title.classes@ == r.title.classes@
     && matches_for_text(h.rmatches@, &h.title) && matches_ok(h.rmatches@) && matches_ok(h.qmatches@)
@@ -177,6 +177,20 @@ pub open spec fn rec_edit1(r: &Record, query: &TextRef, w: int, p: int) -> bool 
     let rc = word_chars(r.title.words@, r.title.chars@, w); let qc = tchars(query, 0);
     0 <= w < r.title.words@.len() && query.words@.len() >= 1 && !query.words@[0].fin && rc.len() >= 5 && three_letters(rc)
     && (is_sub(rc, qc, p) || is_ins(rc, qc, p) || is_del(rc, qc, p) || is_trans(rc, qc, p))
+}
+// C14 (split spelling): word w of the record's title (at least five characters, three of them different) is spelled by the first two
+// query words, one separator between them, the second one still being typed
+pub open spec fn rec_split(r: &Record, query: &TextRef, w: int) -> bool {
+    let rc = word_chars(r.title.words@, r.title.chars@, w);
+    0 <= w < r.title.words@.len() && query.words@.len() >= 2 && !query.words@[1].fin && query.words@[1].slice.0 == query.words@[0].slice.1 + 1
+    && rc == tchars(query, 0) + tchars(query, 1) && rc.len() >= 5 && three_letters(rc)
+}
+// C14 (joined spelling): words w and w+1 of the record's title (one separator between them, the second of at least three characters) are
+// run together in the single query word being typed, which stemming leaves unchanged and which has three different characters
+pub open spec fn rec_join(r: &Record, query: &TextRef, w: int) -> bool {
+    0 <= w && w + 1 < r.title.words@.len() && query.words@.len() >= 1 && !query.words@[0].fin && r.title.words@[w + 1].slice.0 == r.title.words@[w].slice.1 + 1
+    && tchars(query, 0) == word_chars(r.title.words@, r.title.chars@, w) + word_chars(r.title.words@, r.title.chars@, w + 1)
+    && query.words@[0].stem == tchars(query, 0).len() && word_chars(r.title.words@, r.title.chars@, w + 1).len() >= 3 && three_letters(tchars(query, 0))
 }
 // C05: the entry is a record whose title shares a gram with the query
 pub open spec fn result_shares(sr: SearchResult, recs: Seq<Record>, query: &TextRef) -> bool {
@@ -292,6 +306,8 @@ proof fn lemma_search_final(st: &Store, query: &TextRef, ixs: Seq<usize>, hs: Se
         st.records@.len() <= st.limit && query.words@.len() == 1 ==> forall|j: int, w: int| 0 <= j < st.records@.len() && #[trigger] rec_prefix(&st.records@[j], query, w) ==> exists|k: int| 0 <= k < out.len() && (#[trigger] out[k]).id == st.records@[j].id,
         st.records@.len() <= st.limit && query.words@.len() == 1 ==> forall|j: int, w: int| 0 <= j < st.records@.len() && #[trigger] rec_equal(&st.records@[j], query, w) ==> exists|k: int| 0 <= k < out.len() && (#[trigger] out[k]).id == st.records@[j].id,
         st.records@.len() <= st.limit && query.words@.len() >= 2 && query.words@[0].fin ==> forall|j: int, w: int| 0 <= j < st.records@.len() && #[trigger] rec_equal(&st.records@[j], query, w) ==> exists|k: int| 0 <= k < out.len() && (#[trigger] out[k]).id == st.records@[j].id,
+        st.records@.len() <= st.limit && query.words@.len() >= 2 && query.words@[0].fin ==> forall|j: int, w: int| 0 <= j < st.records@.len() && #[trigger] rec_split(&st.records@[j], query, w) ==> exists|k: int| 0 <= k < out.len() && (#[trigger] out[k]).id == st.records@[j].id,
+        st.records@.len() <= st.limit && query.words@.len() == 1 ==> forall|j: int, w: int| 0 <= j < st.records@.len() && #[trigger] rec_join(&st.records@[j], query, w) ==> exists|k: int| 0 <= k < out.len() && (#[trigger] out[k]).id == st.records@[j].id,
         st.records@.len() <= st.limit && query.words@.len() == 1 ==> forall|j: int, w: int, p: int| 0 <= j < st.records@.len() && #[trigger] rec_edit1(&st.records@[j], query, w, p) ==> exists|k: int| 0 <= k < out.len() && (#[trigger] out[k]).id == st.records@[j].id,
         query.words@.len() == 0 ==> out.len() == (if st.records@.len() < st.limit { st.records@.len() } else { st.limit as nat }),
 {
@@ -318,6 +334,8 @@ proof fn lemma_search_final(st: &Store, query: &TextRef, ixs: Seq<usize>, hs: Se
     lemma_search_c04(st, query, ixs, hs, pos, out);
     lemma_search_c13(st, query, ixs, hs, pos, out);
     lemma_search_c13w(st, query, ixs, hs, pos, out);
+    lemma_search_c14s(st, query, ixs, hs, pos, out);
+    lemma_search_c14j(st, query, ixs, hs, pos, out);
 }
 proof fn lemma_highlightable(h: Hit, r: &Record, query: &TextRef)
     requires scored(h, r, query), record_ok(r)
@@ -550,6 +568,78 @@ proof fn lemma_search_c13w(st: &Store, query: &TextRef, ixs: Seq<usize>, hs: Seq
         }
     }
 }
+// C14 at the level of Store::search, split spelling: the first query word is a prefix of the title word (G-prefix), index content,
+// candidate completeness, the split attempt of text_match cannot fail (tm_c14), TM-fin + the filter rule as for C13, full coverage
+proof fn lemma_search_c14s(st: &Store, query: &TextRef, ixs: Seq<usize>, hs: Seq<Hit>, pos: Seq<int>, out: Seq<SearchResult>)
+    requires st.srch_ok(), text_wf(query), cand_src(ixs, st, query), trace_ok(ixs, hs, st.records@, query),
+        sel_ok(out, hs, pos, query, st.dividers.0@, st.dividers.1@),
+        hs.filter(passes(query)).len() <= st.limit ==> forall|i: int| 0 <= i < hs.len() && hm_spec(query, &#[trigger] hs[i]) ==> pos.contains(i),
+    ensures st.records@.len() <= st.limit && query.words@.len() >= 2 && query.words@[0].fin ==> forall|j: int, w: int| 0 <= j < st.records@.len() && #[trigger] rec_split(&st.records@[j], query, w)
+                ==> exists|k: int| 0 <= k < out.len() && (#[trigger] out[k]).id == st.records@[j].id,
+{
+    let recs = st.records@;
+    if recs.len() <= st.limit && query.words@.len() >= 2 && query.words@[0].fin {
+        assert forall|j: int, w: int| 0 <= j < recs.len() && #[trigger] rec_split(&recs[j], query, w) implies exists|k: int| 0 <= k < out.len() && (#[trigger] out[k]).id == recs[j].id by {
+            let r = &recs[j];
+            let qc = tchars(query, 0); let rc = word_chars(r.title.words@, r.title.chars@, w);
+            assert(query.words@[0].slice.0 < query.words@[0].slice.1);
+            assert(qc == word_chars(query.words@, query.chars@, 0));
+            assert(record_ok(r));
+            assert(qc.len() >= 1 && rc.len() >= 1 && qc[0] == rc[0]);
+            lemma_gram_prefix(qc, rc);
+            lemma_common_gram(query.words@, query.chars@, 0, r.title.words@, r.title.chars@, w);
+            assert forall|i: int| 0 <= i < hs.len() && ixs[i] == j as usize implies hm_spec(query, &#[trigger] hs[i]) by {
+                let h = hs[i];
+                assert(scored(h, &recs[j], query));
+                assert(tchars(&h.title, w) == rc);
+                assert(pair_split(&h.title, query, w));
+                assert(tm_c14(&h.title, query, (h.rmatches, h.qmatches)));
+                assert(tm_fin(query, (h.rmatches, h.qmatches)));
+                assert(h.rmatches@.len() >= 1);
+                if h.rmatches@.len() == 1 && h.qmatches@.len() == 1 && !h.rmatches@[0].fin {
+                    assert(first_matched(h.qmatches@));
+                    assert(unfin_match(query, h.qmatches@));
+                    assert(h.qmatches@[0].offset == 0);
+                    assert(false);
+                }
+            }
+            lemma_search_recall_hm(st, query, ixs, hs, pos, out, j);
+        }
+    }
+}
+// C14 at the level of Store::search, joined spelling: the first of the two title words is a prefix of the query word (G-prefix), index
+// content, candidate completeness, the joined attempt of text_match cannot fail (tm_c14), the one-word filter rule, full coverage
+proof fn lemma_search_c14j(st: &Store, query: &TextRef, ixs: Seq<usize>, hs: Seq<Hit>, pos: Seq<int>, out: Seq<SearchResult>)
+    requires st.srch_ok(), text_wf(query), cand_src(ixs, st, query), trace_ok(ixs, hs, st.records@, query),
+        sel_ok(out, hs, pos, query, st.dividers.0@, st.dividers.1@),
+        hs.filter(passes(query)).len() <= st.limit ==> forall|i: int| 0 <= i < hs.len() && hm_spec(query, &#[trigger] hs[i]) ==> pos.contains(i),
+    ensures st.records@.len() <= st.limit && query.words@.len() == 1 ==> forall|j: int, w: int| 0 <= j < st.records@.len() && #[trigger] rec_join(&st.records@[j], query, w)
+                ==> exists|k: int| 0 <= k < out.len() && (#[trigger] out[k]).id == st.records@[j].id,
+{
+    let recs = st.records@;
+    if recs.len() <= st.limit && query.words@.len() == 1 {
+        assert forall|j: int, w: int| 0 <= j < recs.len() && #[trigger] rec_join(&recs[j], query, w) implies exists|k: int| 0 <= k < out.len() && (#[trigger] out[k]).id == recs[j].id by {
+            let r = &recs[j];
+            let qc = tchars(query, 0); let rc = word_chars(r.title.words@, r.title.chars@, w);
+            assert(query.words@[0].slice.0 < query.words@[0].slice.1);
+            assert(qc == word_chars(query.words@, query.chars@, 0));
+            assert(record_ok(r));
+            assert(r.title.words@[w].slice.0 < r.title.words@[w].slice.1);
+            assert(qc.len() >= 1 && rc.len() >= 1 && qc[0] == rc[0]);
+            lemma_gram_prefix(qc, rc);
+            lemma_common_gram(query.words@, query.chars@, 0, r.title.words@, r.title.chars@, w);
+            assert forall|i: int| 0 <= i < hs.len() && ixs[i] == j as usize implies (#[trigger] hs[i]).rmatches@.len() >= 1 by {
+                let h = hs[i];
+                assert(scored(h, &recs[j], query));
+                assert(tchars(&h.title, w) == rc);
+                assert(tchars(&h.title, w + 1) == word_chars(r.title.words@, r.title.chars@, w + 1));
+                assert(pair_join(&h.title, query, w));
+                assert(tm_c14(&h.title, query, (h.rmatches, h.qmatches)));
+            }
+            lemma_search_recall(st, query, ixs, hs, pos, out, j);
+        }
+    }
+}
 proof fn lemma_shares_sym(a: Seq<char>, b: Seq<char>)
     requires shares_gram(a, b)
     ensures shares_gram(b, a)
@@ -624,6 +714,14 @@ impl Store {
             // the first query word is complete and has the same characters as a title word
             self.records@.len() <= self.limit && query.words@.len() >= 2 && query.words@[0].fin ==> forall|j: int, w: int| 0 <= j < self.records@.len() && #[trigger] rec_equal(&self.records@[j], query, w)
                 ==> exists|k: int| 0 <= k < ret@.len() && (#[trigger] ret@[k]).id == self.records@[j].id, // [C13]
+            // C14 (split spelling, modulo the tokeniser): with room for every record, a record with a title word of at least five characters
+            // (three of them different) is found by a query that spells that word as its first two words, the second still being typed
+            self.records@.len() <= self.limit && query.words@.len() >= 2 && query.words@[0].fin ==> forall|j: int, w: int| 0 <= j < self.records@.len() && #[trigger] rec_split(&self.records@[j], query, w)
+                ==> exists|k: int| 0 <= k < ret@.len() && (#[trigger] ret@[k]).id == self.records@[j].id, // [C14]
+            // C14 (joined spelling): ... and a record with two adjacent title words separated by one character (the second of at least three
+            // characters) is found by the one-word query that runs them together, when stemming leaves that word unchanged
+            self.records@.len() <= self.limit && query.words@.len() == 1 ==> forall|j: int, w: int| 0 <= j < self.records@.len() && #[trigger] rec_join(&self.records@[j], query, w)
+                ==> exists|k: int| 0 <= k < ret@.len() && (#[trigger] ret@[k]).id == self.records@[j].id, // [C14]
             // C04 (one typo, modulo the tokeniser): likewise when the single query word is one edit away from a title word of at least
             // five characters, three of them different
             self.records@.len() <= self.limit && query.words@.len() == 1 ==> forall|j: int, w: int, p: int| 0 <= j < self.records@.len() && #[trigger] rec_edit1(&self.records@[j], query, w, p)
